@@ -248,7 +248,7 @@ func genSchema(rng *rand.Rand) *metaSchema {
 }
 
 var metaStrings = []string{"", "red", "green", "blue", "a:b", ":", "red:", "x y", "Red", "true", "5"}
-var metaInts = []int64{0, 1, -1, 2, -2, 5, -5, 7, 100, -100, 1 << 31, -(1 << 31), 1 << 62, -(1 << 62), 3, -3, 42}
+var metaInts = []int64{0, 1, -1, 2, -2, 5, -5, 7, 100, -100, 1 << 31, -(1 << 31), 1 << 62, -(1 << 62), 3, -3, 42, math.MaxInt64, math.MinInt64, math.MaxInt64 - 1, math.MinInt64 + 1}
 
 func genValue(rng *rand.Rand, t fieldType) any {
 	switch t {
